@@ -1425,3 +1425,56 @@ def tr_api_args(args, usage_error):
                        env=env, timeout=60, cwd=d)
     return {'kind': 'api-args', 'args': list(args), 'usage_error': bool(usage_error), 'exit': p.returncode, 'out': p.stdout,
             'err_nonempty': bool(p.stderr.strip())}
+
+
+def tr_plaincall(call, model='amr', seed=0):
+    """A documented call that takes a mutable plain argument (a set, a list, a dict): the argument before and after, the
+    result, and the result of the same call repeated with an equal argument.  (C17: arguments are left unchanged; the result
+    depends on the arguments only.)"""
+    import random as _r
+    rng = _r.Random('plaincall:%s:%d' % (call, seed))
+    m = get_model(model)
+    def norm(o):
+        if isinstance(o, dict):
+            return sorted(([str(k), norm(v)] for k, v in o.items()), key=str)
+        if isinstance(o, (set, frozenset)):
+            return sorted((norm(x) for x in o), key=str)
+        if isinstance(o, (list, tuple)):
+            return [norm(x) for x in o]
+        return o if isinstance(o, (str, int, float, bool)) or o is None else str(o)
+    J = lambda x: _json.dumps(norm(x))   # noqa: E731
+    roles = [':mod', ':poss', ':ARG0', ':location', ':polarity', ':quant', ':beneficiary', ':time']
+    triple = (rng.choice(['a', 'b', '_']), rng.choice(roles), rng.choice(['c', 'd', '-', '7', '_2']))
+    names = set(rng.sample(['a', 'b', 'c', 'd', '_', '_2', '_3', 'x'], rng.randint(0, 6)))
+    tlist = [tuple(x) for x in [['a', ':instance', 'alpha'], ['a', ':ARG0', 'b'], ['b', ':instance', 'beta'], ['b', ':mod', '"s t"']][:rng.randint(1, 4)]]
+    if call == 'Model.reify':
+        mk = lambda: (triple, set(names))              # noqa: E731
+        fn = lambda a: m.reify(a[0], a[1])              # noqa: E731
+    elif call == 'Model.reify(no variables)':
+        mk = lambda: (triple,)                          # noqa: E731
+        fn = lambda a: m.reify(a[0])                    # noqa: E731
+    elif call == 'format_triples':
+        mk = lambda: (list(tlist),)                     # noqa: E731
+        fn = lambda a: penman.format_triples(a[0])      # noqa: E731
+    elif call == 'Graph':
+        mk = lambda: (list(tlist), {tlist[0]: [layout.POP]}, {'id': '1'})     # noqa: E731
+        fn = lambda a: ab.graph_to_json(Graph(a[0], epidata=a[1], metadata=a[2]))   # noqa: E731
+    elif call == 'dumps':
+        gs = [penman.decode('(a / alpha :ARG0 (b / beta))'), penman.decode('# ::id 2\n(c / gamma)')]
+        mk = lambda: (list(gs),)                        # noqa: E731
+        fn = lambda a: penman.dumps(a[0], model=m)      # noqa: E731
+    elif call == 'Model':
+        mk = lambda: ({':ARG0': {}, ':mod': {'type': 'general'}}, {':mod-of': ':domain'}, [(':mod', 'have-mod-91', ':ARG1', ':ARG2')])   # noqa: E731
+        fn = lambda a: sorted(Model(roles=a[0], normalizations=a[1], reifications=a[2]).reifications)   # noqa: E731
+    else:
+        raise ValueError(call)
+    t = {'kind': 'plaincall', 'call': call, 'model': model}
+    a1 = mk()
+    t['arg_before'] = J(a1)
+    ok, r1 = guarded(fn, a1)
+    t['arg_after'] = J(a1)
+    t['result'] = J(r1) if ok else 'EXC:' + excname(r1)
+    a2 = mk()
+    ok, r2 = guarded(fn, a2)
+    t['again'] = J(r2) if ok else 'EXC:' + excname(r2)
+    return t
